@@ -96,7 +96,9 @@ contract(
         "valid_date(self)",
         "time_normal(self)",
         "local_instant(self) == old(local_instant(self))",
-        "result is None"],
+        "result is None",
+        "implies(old(valid_date(self) and time_normal(self)), %s)" % " and ".join(
+            "self.%s == old(self.%s)" % (k, k) for k in NUM_SLOTS)],
     loops={
         0: LoopSpec(invariant=[_ABS], decreases="1 - self._day_of_year"),
         1: LoopSpec(invariant=[_ABS, "self._day_of_year >= 1"],
@@ -159,6 +161,25 @@ def add_cases():
     return out
 
 
+def _years_dur(E, st):
+    from .shapes import mk_duration as _mk
+    r = _mk(E, st, "other", "unit")
+    h = st.obj(r)
+    for k in ("_months", "_days"):
+        h.slots[k] = 0
+    for k in ("_hours", "_minutes", "_seconds"):
+        h.slots[k] = 0.0
+    return {"other": r}
+
+
+def nominal_cases():
+    out = []
+    for d in DATES:
+        for t in TIMES:
+            out.append(Case("%s-%s+years" % (d, t), tp_case(d, t, _years_dur)))
+    return out
+
+
 contract(
     "data:TimePoint.__add__",
     applicable=lambda E, st, env: is_full_tp(E, st, env["self"]) and
@@ -169,8 +190,10 @@ contract(
     ensures=["fresh(result)"] + SAME_SHAPE + SAME_ZONE + [
         "valid_date(result)",
         "implies(d_exact(other), time_normal(result))",
-        "implies(d_exact(other), instant(result) == instant(self) + dlen(other))"],
-    cases=add_cases(), merge=False, opaque=["dby"],
+        "implies(d_exact(other), instant(result) == instant(self) + dlen(other))",
+        "implies(years_only(other), year_step_ok(result, self, d_years(other))"
+        " and same_time_and_zone(result, self))"],
+    cases=add_cases() + nominal_cases(), merge=False, opaque=["dby"],
     note="exact durations (C01); nominal parts: C05 cases")
 
 
@@ -421,3 +444,100 @@ contract(
     note="hash of the UTC calendar date and h/m/s: a function of the instant")
 
 contract("data:TimePoint._end_of_day_normalised", inline=True)
+
+
+# ---------------------------------------------------------------- add_months (C05)
+from . import ENGINE_HOOKS  # noqa
+from pyvc.values import simp as _simp  # noqa
+_RM = z3.Function("runmin", z3.IntSort(), z3.IntSort(), z3.IntSort(), z3.IntSort(),
+                  z3.IntSort())
+
+
+def _rm_hook(E):
+    def zi(x):
+        return x if z3.is_expr(x) else z3.IntVal(x)
+
+    def runmin(E_, args, kws, st):
+        return _RM(*[zi(a) for a in args])
+
+    def runmin_def(E_, args, kws, st):
+        """Definitional facts of runmin at (idx, d, k, sgn): always true."""
+        idx, d, k, sgn = args
+        from contracts.calendar_t1 import S
+        sg = _simp(zi(sgn) > 0)
+        step = (idx + k + 1) if sg is True else (idx - k - 1) if sg is False else \
+            z3.If(zi(sgn) > 0, zi(idx + k + 1), zi(idx - k - 1))
+        nxt = S(E_, "dim_idx", step)
+        cur = _RM(zi(idx), zi(d), zi(k), zi(sgn))
+        st.assume(_RM(zi(idx), zi(d), z3.IntVal(0), zi(sgn)) == zi(d))
+        st.assume(z3.Implies(zi(k) >= 0, _RM(zi(idx), zi(d), zi(k + 1), zi(sgn))
+                             == z3.If(cur <= nxt, cur, nxt)))
+        return True
+    E.extra_builtins["runmin"] = runmin
+    E.extra_builtins["runmin_def"] = runmin_def
+
+
+ENGINE_HOOKS.append(_rm_hook)
+
+
+def am_result(E, st, env):
+    return fresh_timepoint_like(E, st, env["self"], "am", normal=True)
+
+
+_IDX0 = "entry(12 * new._year + new._month_of_year - 1)"
+_D0 = "entry(new._day_of_month)"
+
+
+def am_loop(sgn):
+    s = "(1 if num_months > 0 else -1)"
+    return LoopSpec(invariant=[
+        "12 * new._year + new._month_of_year - 1 == %s + %s * i" % (_IDX0, s),
+        "1 <= new._month_of_year and new._month_of_year <= 12",
+        "runmin_def(%s, %s, i, %s)" % (_IDX0, _D0, s),
+        "new._day_of_month == runmin(%s, %s, i, %s)" % (_IDX0, _D0, s),
+        "1 <= new._day_of_month",
+        "i == 0 or new._day_of_month <= dim(new._year, new._month_of_year)",
+        "same_time_and_zone(new, self)"])
+
+
+AM_ENS_CAL = [
+    "fresh(result)", "unchanged(self)",
+    "midx(result) == midx(self) + num_months",
+    "result._day_of_month == runmin(midx(self), self._day_of_month,"
+    " abs(num_months), 1 if num_months > 0 else -1)",
+    "valid_date(result)", "same_time_and_zone(result, self)"] + SAME_SHAPE
+AM_ENS_OTHER = [
+    "fresh(result)", "unchanged(self)", "valid_date(result)",
+    "same_time_and_zone(result, self)"] + SAME_SHAPE
+
+
+def am_cases():
+    out = []
+    for t in TIMES:
+        for sg in ("pos", "neg"):
+            req = ["num_months > 0"] if sg == "pos" else ["num_months < 0"]
+            out.append(Case("cal-%s-%s" % (t, sg), tp_case(
+                "cal", t, lambda E, st: {"num_months": E.sym_int("num_months")}),
+                requires=req, ensures=AM_ENS_CAL))
+            for d in ("ord", "week"):
+                out.append(Case("%s-%s-%s" % (d, t, sg), tp_case(
+                    d, t, lambda E, st: {"num_months": E.sym_int("num_months")}),
+                    requires=req, ensures=AM_ENS_OTHER))
+    out.append(Case("zero", tp_case("cal", "hms", lambda E, st: {"num_months": 0}),
+                    ensures=["result is self", "unchanged(self)"], fresh_result=False))
+    return out
+
+
+contract(
+    "data:TimePoint.add_months", opaque=["dby"],
+    applicable=lambda E, st, env: is_full_tp(E, st, env["self"]) and
+    not (isinstance(env["num_months"], int) and env["num_months"] == 0),
+    inline_fallback=True,
+    requires=["valid_date(self)", "time_normal(self)", "tz_ok(self._time_zone)"],
+    result=am_result, fresh_result=True,
+    ensures=["(%s) if is_cal(self) else True" % e for e in AM_ENS_CAL] + AM_ENS_OTHER,
+    loops={0: am_loop(1)},      # replaced per case below (direction)
+    cases=am_cases(),
+    note="calendar form: month index exactly n away, day = running minimum of the "
+         "visited month lengths (n clamped single steps); other forms: shape, validity, "
+         "time and zone (their date is tied to the calendar form by a ghost program)")
